@@ -1,6 +1,6 @@
 (* C05CodecProofs.v — DecodeTrun(EncodeTrun t) is the wire view of t, DecodeTfhd(EncodeTfhd h) the wire view of h. *)
 From V.lib Require Import Base.
-From V.c05 Require Import C05Model C05FragModel C05CodecModel.
+From V.c05 Require Import C05Model C05FragModel C05CodecModel C05OptProofs.
 
 Lemma u32_small' x : x < 4294967296 -> u32 x = x.
 Proof. intros H. unfold u32. apply N.mod_small. exact H. Qed.
@@ -42,10 +42,27 @@ Definition sample_wf (s : sample) : bool :=
 Definition no_fields (t : trun) : bool :=
   negb (has_dur t) && negb (has_size t) && negb (has_sflags t) && negb (has_cto t).
 
-Definition trun_wf (t : trun) : bool :=
+(* the fields fit their wire widths *)
+Definition trun_fields_wf (t : trun) : bool :=
   (tr_version t <? 256) && (tr_flags t <? 16777216) && (tr_fsf t <? 4294967296) && i32_ok (tr_doff t)
-  && (lenN (tr_samples t) <? 4294967296) && forallb sample_wf (tr_samples t)
-  && negb ((1024 <? lenN (tr_samples t)) && no_fields t).
+  && (lenN (tr_samples t) <? 4294967296) && forallb sample_wf (tr_samples t).
+
+(* ... and DecodeTrun's guard on the count accepts it *)
+Definition trun_wf (t : trun) : bool :=
+  trun_fields_wf t && negb ((1024 <? lenN (tr_samples t)) && no_fields t).
+
+(* the guard in the form the optimiser establishes (C05OptProofs.optimize_bare) *)
+Lemma bare_ok_guard t : bare_ok t = true -> negb ((1024 <? lenN (tr_samples t)) && no_fields t) = true.
+Proof.
+  unfold bare_ok, other_field, no_fields, MAX_BARE, lenN. intros H.
+  destruct (N.of_nat (length (tr_samples t)) <=? 1024) eqn:E.
+  - apply N.leb_le in E. destruct (1024 <? N.of_nat (length (tr_samples t))) eqn:E2; [apply N.ltb_lt in E2; lia|reflexivity].
+  - cbn [orb] in H. destruct (has_dur t), (has_size t), (has_sflags t), (has_cto t); cbn in H |- *;
+      try discriminate; rewrite ?andb_false_r; reflexivity.
+Qed.
+
+Lemma trun_wf_of_bare t : trun_fields_wf t = true -> bare_ok t = true -> trun_wf t = true.
+Proof. intros H1 H2. unfold trun_wf. rewrite H1, (bare_ok_guard t H2). reflexivity. Qed.
 
 (* the samples DecodeTrun builds: wire_sample with `first` only for the head *)
 Definition wire_list (t : trun) (first : bool) (ss : list sample) : list sample :=
@@ -86,7 +103,7 @@ Proof. reflexivity. Qed.
 Lemma dec_enc_trun t :
   trun_wf t = true -> dec_trun (trun_size t) (enc_trun_body t) = Ok (wire_trun t).
 Proof.
-  unfold trun_wf. rewrite !andb_true_iff. intros [[[[[[Hv Hf] Hx] Hd] Hl] Hs] Hk].
+  unfold trun_wf, trun_fields_wf. rewrite !andb_true_iff. intros [[[[[[Hv Hf] Hx] Hd] Hl] Hs] Hk].
   apply N.ltb_lt in Hv. apply N.ltb_lt in Hf. apply N.ltb_lt in Hx. apply N.ltb_lt in Hl.
   unfold dec_trun, enc_trun_body.
   assert (Hvf : u32 (tr_version t * 16777216 + tr_flags t) = tr_version t * 16777216 + tr_flags t)
